@@ -37,7 +37,11 @@ def _run(env, m, t, split=None):
         sim.net.process_closes()
         ch = sim.choices()
         if not ch:
-            sim.idle_step()
+            try:
+                sim.idle_step()
+            except simnet.Deadlock:
+                env.check('all_parties_complete_setup', False)      # reported (with the split offset) and replayed, not a harness error
+                return sim, None, w
             continue
         for kind, arg in ch:
             if kind == 'step':
@@ -53,7 +57,14 @@ def _run(env, m, t, split=None):
                     sim.net.deliver(c, side, w)
                 else:
                     sim.net.deliver(c, side)
-    res = sim.results()
+    try:
+        sim.results()
+    except Exception as e:
+        from vf.symx import Unmodelled
+        if isinstance(e, (Unmodelled, AssertionError)) or type(e).__name__ == 'AssumptionFailed':
+            raise
+        env.check(f'no_exception[{type(e).__name__}]', False)
+        return sim, None, w
     return sim, after, w
 
 
@@ -92,7 +103,8 @@ def h_keys(env):
                 sim.parties[0].asyncoro.MessageExchanger.connection_made, sim.parties[0].asyncoro.MessageExchanger.data_received)
     if w is not None:
         env.observe('split_at', w)
-    _obligations(env, sim, after, m, t)
+    if after is not None:
+        _obligations(env, sim, after, m, t)
 
 
 def h_twin(env):
